@@ -2,7 +2,8 @@
 Model of /repo/pkg/execution/util/cronschedule/schedule.go (Schedule: New/Pop/Bump/Delete,
 getInitialTimeForScheduling, getNext), /repo/pkg/execution/util/cron/expression.go
 (multiExpression.Next) and /repo/pkg/execution/controllers/croncontroller/{cron_worker,informer}.go
-(Work, refreshUpdatedJobConfigs, syncOne, handleUpdate, enqueueFlush).  Core Lean only.
+(Work, refreshUpdatedJobConfigs, syncOne, handleAdd, handleUpdate, handleDelete, enqueueFlush) and the
+`loadedConfigs` record of controller.go (`takeLoadedConfig`).  Core Lean only.
 
 Clock readings are Int nanoseconds; heap priorities, schedule times and API timestamps are Int
 seconds.  The cron library (`cronexpr`, tzdata) sits behind `nxt : Int → Option Int` on seconds:
@@ -56,6 +57,8 @@ structure JC where
   key           : String
   sched         : Sched
   lastScheduled : Option Int
+  /-- `metadata.uid` (compared only; "" = an object without UID) -/
+  uid           : String := ""
   deriving Repr, Inhabited
 
 /-- the lower bound applied at the head of `getNext`: a reference time before `notBefore` is
@@ -254,9 +257,90 @@ def onAdd (w : Worker) (jc : JC) (addRegistered : Bool) : Worker :=
   let w1 := { w with lister := listerSet w.lister jc.key jc }
   if addRegistered then { w1 with chan := w1.chan ++ [jc] } else w1
 
-/-- Informer delete event: `DeleteFunc: w.enqueueFlush` with the last known object. -/
+/-- Informer delete event: the handler flushes (`enqueueFlush`) with the last known object. -/
 def onDelete (w : Worker) (jc : JC) (deleteRegistered : Bool) : Worker :=
   let w1 := { w with lister := listerDel w.lister jc.key }
   if deleteRegistered then { w1 with chan := w1.chan ++ [jc] } else w1
+
+/-! ### The controller `Context` next to the worker: `loadedConfigs` (F24)
+
+The informer notifies a handler of the objects that EXIST when it joins with add events too
+(client-go: synthetic adds for everything in the indexer / the initial list), and the handler runs
+them whenever it gets to it — typically after `CronWorker.Init` loaded those JobConfigs with their
+catch-up schedule.  `Init` therefore records what it loaded (namespaced key ↦ UID, under a mutex it
+holds for the whole of `Init`, so a handler that sees `scheduleInitialized = 1` sees the complete
+record), `handleAdd` ignores the add of a recorded JobConfig with the recorded UID and forgets the
+record, `handleDelete` forgets it before it flushes.  The three `Bool` parameters (`records`,
+`takes`, `forgets`) say whether the source has these shapes; they come from `Generated/Facts.lean`
+(`cronInitRecordsLoaded`, `cronHandleAddTakesLoaded`, `cronHandleDeleteForgetsLoaded`; all `false`
+on the tree before the repair, where every add flushes). -/
+
+structure Ctl where
+  worker : Worker
+  /-- `Context.loadedConfigs`: key ↦ UID of the JobConfigs `Init` loaded and no add/delete consumed -/
+  loaded : List (String × String)
+  deriving Inhabited
+
+def lookupUid (l : List (String × String)) (k : String) : Option String :=
+  match l with
+  | [] => none
+  | (k', u) :: rest => if k' = k then some u else lookupUid rest k
+
+/-- `delete(c.loadedConfigs, key)` -/
+def forget (l : List (String × String)) (k : String) : List (String × String) :=
+  l.filter (fun p => p.1 ≠ k)
+
+/-- `Context.takeLoadedConfig(rjc)`: `uid, ok := loadedConfigs[key]; delete(loadedConfigs, key);
+return ok && uid == rjc.GetUID()` -/
+def takeLoaded (l : List (String × String)) (jc : JC) : List (String × String) × Bool :=
+  (forget l jc.key, lookupUid l jc.key == some jc.uid)
+
+/-- what `CronWorker.Init` records: `loadedConfigs[key] = uid` for every listed JobConfig (a Go map:
+a later duplicate key would overwrite; the lister's keys are distinct) -/
+def recordLoaded : List JC → List (String × String)
+  | [] => []
+  | jc :: rest => (jc.key, jc.uid) :: forget (recordLoaded rest) jc.key
+
+/-- `CronWorker.Init` on the listed JobConfigs (`none` = `cronschedule.New` failed: no schedule,
+nothing recorded). -/
+def ctlInit (jcs : List JC) (cfgDowntime defaultDowntime now : Int) (records : Bool) : Option Ctl :=
+  (schedNew jcs cfgDowntime defaultDowntime now).map fun pq =>
+    { worker := { heap := pq, lister := jcs.map (fun jc => (jc.key, jc)), chan := [] },
+      loaded := if records then recordLoaded jcs else [] }
+
+/-- `InformerWorker.handleAdd` once `scheduleInitialized = 1` (before that it returns at once; the
+driver models that by not having a `Ctl` yet).  The cache is NOT touched here. -/
+def handleAdd (c : Ctl) (jc : JC) (addRegistered takes : Bool) : Ctl :=
+  if !addRegistered then c
+  else if takes then
+    let r := takeLoaded c.loaded jc
+    if r.2 then { c with loaded := r.1 }
+    else { worker := { c.worker with chan := c.worker.chan ++ [jc] }, loaded := r.1 }
+  else { c with worker := { c.worker with chan := c.worker.chan ++ [jc] } }
+
+/-- the informer's add notification for a JobConfig that existed when the handler joined: the cache
+holds the object already, only the handler runs. -/
+def ctlInitialAdd (c : Ctl) (jc : JC) (addRegistered takes : Bool) : Ctl :=
+  handleAdd c jc addRegistered takes
+
+/-- a runtime add event: cache applied, then `handleAdd`. -/
+def ctlAdd (c : Ctl) (jc : JC) (addRegistered takes : Bool) : Ctl :=
+  handleAdd { c with worker := { c.worker with lister := listerSet c.worker.lister jc.key jc } }
+    jc addRegistered takes
+
+/-- a delete event: cache applied, then `handleDelete` (forget the record, flush). -/
+def ctlDelete (c : Ctl) (jc : JC) (deleteRegistered forgets : Bool) : Ctl :=
+  { worker := onDelete c.worker jc deleteRegistered,
+    loaded := if deleteRegistered && forgets then forget c.loaded jc.key else c.loaded }
+
+/-- an update event (`handleUpdate` does not look at the record). -/
+def ctlUpdate (c : Ctl) (old new : JC) (updateRegistered : Bool) : Ctl :=
+  { c with worker := onUpdate c.worker old new updateRegistered }
+
+/-- a tick -/
+def ctlWork (c : Ctl) (now : Int) (maxCount : Int) (flushLimit fuel : Nat) :
+    Ctl × List (String × Int) × Bool :=
+  let r := work c.worker now maxCount flushLimit fuel
+  ({ c with worker := r.1 }, r.2.1, r.2.2)
 
 end Furiko.Cron
